@@ -26,7 +26,16 @@ RULE = ('parser/faults: a valid config (bindings, macros, blocks, imports, inclu
         'includes) / gin.bind_parameter / clear_config interleaved with LATE registrations (functions, classes; by a call '
         'between two steps or by an import statement in the middle of a parse; methods registered in the class body and '
         'renamed when their class is registered): after every step the bindings and "# Set in" comments of '
-        'config_str(show_provenance=True) against the harness\'s own bookkeeping.')
+        'config_str(show_provenance=True) against the harness\'s own bookkeeping. '
+        'import-raises also: modules that raise StopIteration, or whose SOURCE has a SyntaxError / IndentationError (the error '
+        'then names a place in the module, not in the config); and, after the failure, the recorded imports and '
+        'config_str() against the fresh gin given the prefix. unbuildable-value (implementation only): fault "a well-formed '
+        'value that cannot be built" (unhashable dictionary key, 8 shapes): TypeError, location chain, prefix applied. '
+        'dynamic-registration-faults (implementation only): files under dynamic registration (3 import spellings per '
+        'module, bindings and references through them; as a string, a file, an included file) with one fault out of 7 '
+        'kinds at a random position: class and location chain of the error, then config_str(), the recorded imports, the '
+        'store and the outcome of LATER parses that name each function without importing it, against a fresh gin given '
+        'the preceding statements only.')
 TRUSTED_BASE = [
     'Coq 8.16.1 kernel; vm_compute in the correspondence run; no native_compute',
     'hand-written models coq/Model/Parser.v + coq/Model/Stmt.v of gin/config_parser.py and gin/config.py:833-869,2366-2404,2492-2505, utils.py:21-60; tied to /repo by harness/textm.py + harness/props/c16.py',
@@ -83,7 +92,11 @@ class C16BackendError(RuntimeError):
 
 
 BOOM_EXC = {'ValueError': ValueError, 'AttributeError': AttributeError, 'RuntimeError': RuntimeError, 'KeyError': KeyError,
-            'TypeError': TypeError, 'ZeroDivisionError': ZeroDivisionError, 'C16BackendError': C16BackendError}
+            'TypeError': TypeError, 'ZeroDivisionError': ZeroDivisionError, 'C16BackendError': C16BackendError,
+            # a module whose execution runs an iterator dry; a module whose SOURCE does not compile (the error then carries
+            # a file and a line of its own: those of the module, which say nothing about where in the config it happened)
+            'StopIteration': StopIteration, 'SyntaxError': SyntaxError, 'IndentationError': IndentationError}
+BOOM_SOURCE = {'SyntaxError': 'def oops(:\n  pass\n', 'IndentationError': 'def ok():\n    x = 1\n  y = 2\n'}
 # statement form -> (statement text, name of the module whose execution raises); %s = the exception's name
 BOOM_FORMS = {
     'plain': ('import c16boom_%s', 'c16boom_%s'),
@@ -112,6 +125,18 @@ def boom_message(modname):
   return 'c16 backend failure while executing %s' % modname
 
 
+def make_boom(cls, modname):
+  """the exception object that executing module `modname` raises"""
+  if cls.__name__ in BOOM_SOURCE:
+    try:
+      compile(BOOM_SOURCE[cls.__name__], '/site/%s.py' % modname.replace('.', '/'), 'exec')
+    except SyntaxError as e:
+      assert type(e) is cls, (type(e), cls)
+      return e
+    raise AssertionError('source of %s compiles' % modname)
+  return cls(boom_message(modname))
+
+
 class BoomFinder:
   """meta-path finder: c16boom_<Exc> and c16boompkg.m<Exc> exist and raise <Exc> while being executed; c16boompkg and
   c16boompkg.gin are importable"""
@@ -122,6 +147,7 @@ class BoomFinder:
       self.raising['c16boom_' + x] = cls
       self.raising['c16boompkg.m' + x] = cls
     self.fine = {'c16boompkg': True, 'c16boompkg.gin': False}
+    self.original = None           # the exception object the last raising module raised
 
   def find_spec(self, name, path=None, target=None):
     if name in self.raising:
@@ -136,7 +162,8 @@ class BoomFinder:
   def exec_module(self, module):
     cls = self.raising.get(module.__name__)
     if cls is not None:
-      raise cls(boom_message(module.__name__))
+      self.original = make_boom(cls, module.__name__)
+      raise self.original
 
   def install(self):
     self.remove()
@@ -149,7 +176,35 @@ class BoomFinder:
       sys.modules.pop(n, None)
 
 
-class BoomMachine(textm.TextMachine):
+class SnapMachine(textm.TextMachine):
+  """the text machine; remembers what config_str() prints and which imports are recorded when its calls are over"""
+
+  def run(self):
+    out = super().run()
+    try:
+      text = self.gin.config_str()
+    except Exception as e:  # pylint: disable=broad-except
+      text = 'config_str() raised %s: %s' % (type(e).__name__, str(e)[:200])
+    self.snap = {'imports': sorted(st.format() for st in self.cfg._IMPORTS), 'config_str': text}  # pylint: disable=protected-access
+    return out
+
+
+def snap_fails(m, pm, fault):
+  """the statements before the fault have taken effect: what gin RECORDS of them (the imports, which head config_str())
+  is what a fresh gin given those statements only records"""
+  if m.snap['imports'] != pm.snap['imports']:
+    return [('prefix-imports-not-recorded', 'after fault %r the recorded imports are %r; a fresh gin given the preceding '
+             'statements only has recorded %r' % (fault, m.snap['imports'], pm.snap['imports']))]
+  if m.snap['config_str'] != pm.snap['config_str']:
+    return [('config-str-differs-from-prefix', 'after fault %r config_str() is %r; a fresh gin given the preceding '
+             'statements only prints %r' % (fault, m.snap['config_str'], pm.snap['config_str']))]
+  return []
+
+
+LOC_RE = r'\n  In (?:file "(.*?)",|bindings string) line (\d+)'
+
+
+class BoomMachine(SnapMachine):
   """the text machine with the raising modules importable; remembers the exception object of the last failing parse"""
 
   def __init__(self, case):
@@ -165,6 +220,17 @@ class BoomMachine(textm.TextMachine):
           self.last_exc = e
           raise
       setattr(self.gin, fname, wrapped)
+
+  def run_call(self, c):
+    self.last_exc = None
+    o, same = super().run_call(c)
+    e = self.last_exc
+    if isinstance(e, SyntaxError) and isinstance(self.boom.original, SyntaxError):
+      # the SyntaxError of a MODULE is, for the config, a semantic error like any other a failing import raises:
+      # observed as (class, location chain of the message), not as (a syntax error of the config at .lineno)
+      import re
+      o = T('Err', type(e).__name__, [[mt.group(1) or '', int(mt.group(2))] for mt in re.finditer(LOC_RE, str(e))])
+    return o, same
 
   def close(self):
     self.boom.remove()
@@ -363,6 +429,10 @@ class FaultEngine(Engine):
   def extra_fails(self, ab, m, fault, info):
     return []
 
+  def prefix_fails(self, m, pm, fault):
+    """further comparisons of the machine after the failed parse with the fresh one given the prefix (both closed)"""
+    return []
+
   def impl(self, ab):
     texts, ptexts, info = build(ab)
     case = to_case(texts, ab['entry'], ab.get('as_string'), ab.get('sk'))
@@ -414,6 +484,8 @@ class FaultEngine(Engine):
                         'preceding statements only has %r' % (kind, fault, norm(obs[-2]), norm(pobs[-2]))))
         elif norm(obs[-1]) != norm(pobs[-1]):
           fails.append(('provenance-differs', 'after fault %r: %r vs prefix-only %r' % (fault, norm(obs[-1]), norm(pobs[-1]))))
+        else:
+          fails.extend(self.prefix_fails(m, pm, fault))
     else:
       if not (isinstance(res, T) and res.tag == 'Ok'):
         fails.append(('valid-config-rejected', repr(C.jsonable(res))))
@@ -515,11 +587,14 @@ class ImportFaultEngine(FaultEngine):
     if not isinstance(e, cls):
       fails.append(('error-class-changed', 'fault %s: the module raises %s, the parse raised %r, which is no instance of it' %
                     (kind, cls.__name__, type(e).__mro__)))
-    if spec['module']:
-      first = str(cls(boom_message(spec['module'])))
+    if spec['module'] and m.boom.original is not None:
+      first = str(m.boom.original)
       if not str(e).startswith(first):
         fails.append(('error-message-lost', 'fault %s: the original message %r is not the beginning of %r' % (kind, first, str(e))))
     return fails
+
+  def prefix_fails(self, m, pm, fault):
+    return snap_fails(m, pm, fault)
 
 
 FULL = {'f': 'm.f', 'm.f': 'm.f', 'g': 'n.g', 'n.g': 'n.g', 'x.h': 'x.h', 'k': 'k'}
@@ -1039,4 +1114,280 @@ class LateRegistrationEngine(Engine):
     return {'obs': T('Done'), 'fails': fails[:3], 'nontrivial': state['nontrivial'], 'tags': tags}
 
 
-ENGINES = [FaultEngine(), ProvenanceEngine(), ImportFaultEngine(), LateRegistrationEngine()]
+# ---- the fault "a well-formed value that cannot be BUILT" (implementation only: engine unbuildable-value)
+UNBUILDABLE = {
+    'list-key': 'f.a = {[1, 2]: 3}', 'dict-key': 'f.a = {{}: 1}', 'tuple-key': "f.a = {'k': 1, (1, [2]): 3}",
+    'nested': "f.a = [1, {'k': {[1]: 2}}]", 'in-tuple': 's1/f.a = ({[]: 0},)', 'macro': 'mac = {[1]: 2}',
+    'reference-inside': 'f.a = {[@g()]: 1}', 'scoped-macro': "s1/mac = {'a': 1, {'b': 2}: 3}",
+}
+for _k, _line in UNBUILDABLE.items():
+  FAULT_LINES['unbuildable:' + _k] = _line
+
+
+class ValueFaultEngine(FaultEngine):
+  """bad value in its semantic form: every token of the value is fine for Gin's grammar, but the value cannot be
+  constructed (a dictionary whose key is a list / a dictionary / a tuple holding a list).  That is Python's TypeError; like
+  every semantic error it must keep its class and name the file and line of the offending statement (the value is on the
+  statement's first line here) and every include statement above it; exactly the preceding statements have taken effect.
+  Implementation only: the values of Model/Parser.v are trees, any tree is a key."""
+  name = 'unbuildable-value'
+  model = False
+
+  def budget(self, tier):
+    return 60 if tier == 'quick' else 3000
+
+  def expected_class(self, kind):
+    return 'TypeError' if kind.startswith('unbuildable:') else SEMANTIC.get(kind)
+
+  def corpus(self):
+    files = {'main.gin': [['bind', '', 'f', 'a', '1'], ['include', 'inc.gin'], ['bind', '', 'f', 'c', '3']],
+             'inc.gin': [['import', 'other'], ['bind', '', 'f', 'b', '2'], ['include', 'sub/deep.gin'], ['bind', '', 'f', 'b', '4']],
+             'sub/deep.gin': [['macro', 'mac', '1'], ['import', 'pkg.mod'], ['macro', 's1/mac', "'s'"]]}
+    base = {'files': files, 'entry': 'main.gin', 'seed': 3, 'as_string': False}
+    out = []
+    for n, k in enumerate(UNBUILDABLE):
+      out.append(dict(base, fault=[['sub/deep.gin', 'inc.gin', 'main.gin'][n % 3], 1 + n % 3, 'unbuildable:' + k, 0],
+                      as_string=(n % 4 == 3)))
+    return out
+
+  def gen(self, rng, tier):
+    ab = super().gen(rng, tier)
+    files = ab['files']
+    inner = [n for n in files if n != ab['entry']]
+    fname = rng.choice(inner) if inner and rng.random() < 0.7 else rng.choice(list(files))
+    n = len(files[fname])
+    ab['fault'] = [fname, rng.randint(min(2, n), n) if rng.random() < 0.5 else rng.randint(0, n),
+                   'unbuildable:' + rng.choice(list(UNBUILDABLE)), 0]
+    return ab
+
+
+# ---- files under dynamic registration (implementation only: engine dynamic-registration-faults)
+DYN_FUNCS = {'h1': 'c16dyn.alpha', 'h2': 'c16dyn.alpha', 'h3': 'c16dyn.beta', 'h4': 'c16dyn.beta'}
+# module -> [(import statement, how the module is written after it)]
+DYN_FORMS = {
+    'c16dyn.alpha': [('import c16dyn.alpha', 'c16dyn.alpha'), ('import c16dyn.alpha as al', 'al'), ('from c16dyn import alpha', 'alpha')],
+    'c16dyn.beta': [('import c16dyn.beta', 'c16dyn.beta'), ('from c16dyn import beta as bt', 'bt'), ('import c16dyn.beta as be', 'be')],
+}
+# fault kind -> (exception class or None for a syntactic fault, statement; {t}/{u}: a function / another one as the file
+# writes them, {m}: the module of {t} as the file writes it)
+DYN_FAULTS = {
+    'unknown-param': ('ValueError', '{t}.nope = 1'),
+    'unknown-param-reference-value': ('ValueError', '{t}.nope = @{u}'),
+    'unknown-attribute': ('AttributeError', '{m}.nosuch.p = 1'),
+    'unknown-reference': ('AttributeError', '{t}.p = @{m}.nosuch()'),
+    'unknown-name': ('NameError', 'zz.nosuch.p = 1'),
+    'bad-import': ('ModuleNotFoundError', 'import c16dyn.nosuch'),
+    'missing-value': (None, '{t}.p ='),
+}
+
+
+def dyn_render(c):
+  """-> (lines of the file under dynamic registration, 1-based line of the fault or None, functions named before the fault)"""
+  import random
+  rng = random.Random(c.get('pads', 0))
+  lines, written, named = [DYN_HEADER], {}, set()
+  fault = c.get('fault')
+  fault_line = None
+
+  def sel(fn):
+    return written[DYN_FUNCS[fn]] + '.' + fn
+
+  def put_fault():
+    kind, t, u = fault[1], fault[2], fault[3]
+    for fn in (t, u):
+      if DYN_FUNCS[fn] not in written:          # the faulty statement needs its modules: imported just before it
+        mod = DYN_FUNCS[fn]
+        lines.append(DYN_FORMS[mod][0][0])
+        written[mod] = DYN_FORMS[mod][0][1]
+    lines.append(DYN_FAULTS[kind][1].format(t=sel(t), u=sel(u), m=written[DYN_FUNCS[t]]))
+    return len(lines)
+
+  for i, it in enumerate(c['items']):
+    if fault and fault[0] == i and fault_line is None:
+      fault_line = put_fault()
+      before = set(named)
+    for _ in range(rng.choice([0, 0, 1])):
+      lines.append(rng.choice(['', '# comment']))
+    if it[0] == 'import':
+      st, w = DYN_FORMS[it[1]][it[2]]
+      lines.append(st)
+      written[it[1]] = w
+    elif DYN_FUNCS[it[2]] in written and (it[0] == 'bind' or DYN_FUNCS[it[4]] in written):
+      lines.append('%s%s.%s = %s' % (it[1] + '/' if it[1] else '', sel(it[2]), it[3],
+                                     it[4] if it[0] == 'bind' else '@' + sel(it[4]) + it[5]))
+      named.update([it[2]] if it[0] == 'bind' else [it[2], it[4]])
+  if fault and fault_line is None:
+    before = set(named)
+    fault_line = put_fault()
+  return lines, fault_line, (before if fault else named)
+
+
+class DynRegistrationEngine(Engine):
+  """A file under dynamic registration ('from __gin__ import dynamic_registration', then imports, then bindings and
+  references written through those imports) with ONE fault; as a bindings string, a file, or a file included by a
+  bindings string.  The error has the class and the location chain the property states.  Afterwards, against a FRESH gin
+  given only the statements preceding the fault: the same config_str() (whose header is the recorded imports), the
+  same store, and LATER parses behave the same -- for every function of the universe, a later bindings string that names
+  it without importing it ('h2.q = 7') is accepted by both or rejected by both: a statement that failed must not have
+  made a configurable known.  Implementation only: Model/Stmt.v registers everything up front."""
+  name = 'dynamic-registration-faults'
+  model = False
+
+  def budget(self, tier):
+    return 80 if tier == 'quick' else 4000
+
+  def corpus(self):
+    a0, b1 = ['import', 'c16dyn.alpha', 0], ['import', 'c16dyn.beta', 1]
+    return [
+        # the imports and a binding precede an unknown parameter of a function the file has not named yet
+        {'items': [a0, ['bind', '', 'h1', 'p', 3]], 'fault': [2, 'unknown-param', 'h2', 'h1'], 'mode': 'text', 'pads': 1},
+        # the same, on a function already configured
+        {'items': [a0, ['bind', '', 'h1', 'p', 3]], 'fault': [2, 'unknown-param', 'h1', 'h1'], 'mode': 'file', 'pads': 2},
+        # the value names a function for the first time, then the key is refused
+        {'items': [a0, b1, ['bind', 's1', 'h3', 'q', 4]], 'fault': [3, 'unknown-param-reference-value', 'h3', 'h2'],
+         'mode': 'included', 'pads': 3},
+        {'items': [b1, ['ref', '', 'h3', 'p', 'h4', '()'], a0], 'fault': [2, 'unknown-attribute', 'h4', 'h4'], 'mode': 'included', 'pads': 4},
+        {'items': [a0, ['bind', '', 'h2', 'q', 1], ['bind', '', 'h1', 'q', 2]], 'fault': [1, 'missing-value', 'h1', 'h1'], 'mode': 'text', 'pads': 5},
+        {'items': [a0, ['bind', '', 'h2', 'q', 1]], 'fault': [2, 'bad-import', 'h2', 'h2'], 'mode': 'file', 'pads': 6},
+        {'items': [a0, b1, ['ref', '', 'h1', 'p', 'h3', '']], 'fault': None, 'mode': 'text', 'pads': 7},
+    ]
+
+  def gen(self, rng, tier):
+    items, imported = [], []
+    for _ in range(rng.randint(1, 6)):
+      r = rng.random()
+      if not imported or r < 0.25:
+        mod = rng.choice(list(DYN_FORMS))
+        items.append(['import', mod, rng.randrange(len(DYN_FORMS[mod]))])
+        if mod not in imported:
+          imported.append(mod)
+        continue
+      fns = [f for f, m in DYN_FUNCS.items() if m in imported]
+      scope = rng.choice(['', '', 's1', 's1/s2'])
+      if r < 0.8:
+        items.append(['bind', scope, rng.choice(fns), rng.choice(['p', 'q']), rng.randint(0, 9)])
+      else:
+        items.append(['ref', scope, rng.choice(fns), rng.choice(['p', 'q']), rng.choice(fns), rng.choice(['', '()'])])
+    fault = None
+    if rng.random() < 0.9:
+      fault = [rng.randint(0, len(items)), rng.choice(list(DYN_FAULTS)), rng.choice(list(DYN_FUNCS)), rng.choice(list(DYN_FUNCS))]
+    return {'items': items, 'fault': fault, 'mode': rng.choice(['text', 'file', 'included']), 'pads': rng.randint(0, 10 ** 6)}
+
+  def shrink(self, c):
+    for i in range(len(c['items'])):
+      b = copy.deepcopy(c)
+      del b['items'][i]
+      if b['fault'] and b['fault'][0] > i:
+        b['fault'][0] -= 1
+      yield b
+    if c['mode'] != 'text':
+      yield dict(copy.deepcopy(c), mode='text')
+
+  def run_one(self, lines, mode):
+    """a fresh gin, the universe, one parse of `lines` -> (exception or None, state afterwards, outcome of later parses)"""
+    import types
+    gin = C.fresh_gin()
+    mods = {}
+    for name in ['c16dyn'] + sorted(set(DYN_FUNCS.values())):
+      mod = types.ModuleType(name)
+      mod.__path__ = []
+      mods[name] = mod
+      if '.' in name:
+        setattr(mods['c16dyn'], name.split('.')[1], mod)
+    for fn, modname in DYN_FUNCS.items():
+      env = {'__name__': modname}
+      exec('def %s(p=1, q=2):\n  return (p, q)\n' % fn, env)  # pylint: disable=exec-used
+      setattr(mods[modname], fn, env[fn])
+    files = {'dyn.gin': '\n'.join(lines) + '\n'}
+    gin.config.register_file_reader(lambda path: textm.NamedStringIO(files[path], path), lambda path: path in files)
+    sys.modules.update(mods)
+    try:
+      raised = None
+      try:
+        if mode == 'text':
+          gin.parse_config(files['dyn.gin'])
+        elif mode == 'file':
+          gin.parse_config_file('dyn.gin')
+        else:
+          gin.parse_config("\n# the file below enables dynamic registration\ninclude 'dyn.gin'\n")
+      except Exception as e:  # pylint: disable=broad-except
+        raised = e
+      try:
+        text = gin.config_str()
+      except Exception as e:  # pylint: disable=broad-except
+        text = 'config_str() raised %s: %s' % (type(e).__name__, str(e)[:200])
+      cfg = gin.config
+      state = {'config_str': text,
+               'imports': sorted(st.format() for st in cfg._IMPORTS),  # pylint: disable=protected-access
+               'store': sorted([k[0], k[1], sorted((p, repr(v)) for p, v in d.items())] for k, d in cfg._CONFIG.items()),  # pylint: disable=protected-access
+               'scope': list(gin.current_scope()), 'locked': gin.config_is_locked(), 'contexts': len(cfg._PARSE_CONTEXTS)}  # pylint: disable=protected-access
+      later = {}
+      for fn in DYN_FUNCS:
+        try:
+          gin.parse_config('%s.q = 7' % fn)
+          later[fn] = 'accepted'
+        except Exception as e:  # pylint: disable=broad-except
+          later[fn] = 'rejected (%s)' % type(e).__name__
+      return raised, state, later
+    finally:
+      for name in mods:
+        sys.modules.pop(name, None)
+
+  def impl(self, c):
+    lines, fault_line, named = dyn_render(c)
+    fault = c.get('fault')
+    mode = c['mode']
+    fails, tags = [], ['mode:' + mode, 'fault:' + (fault[1] if fault else 'none')]
+    raised, state, later = self.run_one(lines, mode)
+    obs = T('Dyn', textm.err_obs(raised) if raised is not None else T('Ok'), state['store'], state['imports'],
+            sorted(later.items()))
+    if state['scope'] or state['locked'] or state['contexts'] != 1:
+      fails.append(('parse-left-state-dirty', 'scope %r, locked %r, %d parse contexts after the call' %
+                    (state['scope'], state['locked'], state['contexts'])))
+    if not fault:
+      if raised is not None:
+        fails.append(('valid-config-rejected', '%s: %s' % (type(raised).__name__, str(raised)[:300])))
+      return {'obs': obs, 'fails': fails, 'nontrivial': False, 'tags': tags}
+    kind = fault[1]
+    cls = DYN_FAULTS[kind][0]
+    shown = '' if mode == 'text' else 'dyn.gin'
+    chain = [[shown, fault_line]] + ([['', 3]] if mode == 'included' else [])
+    o = textm.err_obs(raised) if raised is not None else None
+    if raised is None:
+      fails.append(('fault-not-reported', 'fault %r was accepted: %r' % (fault, lines)))
+    elif cls is None:
+      if not (o.tag == 'SyntaxError' and o.args[0] == fault_line):
+        fails.append(('error-class-changed', 'syntactic fault %s on line %d: got %r' % (kind, fault_line, C.jsonable(o))))
+    elif not (o.tag == 'Err' and o.args[0] == cls):
+      fails.append(('error-class-changed', 'fault %s: expected %s, got %r' % (kind, cls, C.jsonable(o))))
+    elif o.args[1] != chain:
+      fails.append(('error-location-chain', 'fault %s in %r: message names %r, expected %r' % (kind, lines, o.args[1], chain)))
+    # the independent oracle: a fresh gin given the statements preceding the fault, in the same layout
+    praised, pstate, plater = self.run_one(lines[:fault_line - 1], mode)
+    what = 'fault %s on line %d of %r (%s)' % (kind, fault_line, lines, mode)
+    if praised is not None:
+      fails.append(('harness-prefix-config-invalid', '%s: %s' % (type(praised).__name__, str(praised)[:300])))
+    elif state['store'] != pstate['store']:
+      fails.append(('prefix-not-applied', '%s: store afterwards %r; a fresh gin given the preceding statements only has %r' %
+                    (what, state['store'], pstate['store'])))
+    elif state['imports'] != pstate['imports']:
+      fails.append(('prefix-imports-not-recorded', '%s: recorded imports afterwards %r; a fresh gin given the preceding '
+                    'statements only has recorded %r' % (what, state['imports'], pstate['imports'])))
+    elif state['config_str'] != pstate['config_str']:
+      fails.append(('config-str-differs-from-prefix', '%s: config_str() afterwards %r; a fresh gin given the preceding '
+                    'statements only prints %r' % (what, state['config_str'], pstate['config_str'])))
+    if praised is None and later != plater:
+      left = sorted(fn for fn in later if later[fn] == 'accepted' and plater[fn] != 'accepted')
+      if left:
+        fails.append(('failed-statement-left-registration', "%s: a later parse of '%s.q = 7' is accepted, in a fresh gin given "
+                      'the preceding statements only it is %s: the statement that failed has registered %s' %
+                      (what, left[0], plater[left[0]], left)))
+      else:
+        fails.append(('later-parse-differs-from-prefix', '%s: later parses %r; in a fresh gin given the preceding statements '
+                      'only %r' % (what, later, plater)))
+    nontrivial = fault[0] >= 2 or mode == 'included' or fault[2] not in named
+    return {'obs': obs, 'fails': fails[:4], 'nontrivial': nontrivial, 'tags': tags}
+
+
+ENGINES = [FaultEngine(), ProvenanceEngine(), ImportFaultEngine(), LateRegistrationEngine(), ValueFaultEngine(),
+           DynRegistrationEngine()]
